@@ -216,6 +216,33 @@ Theorem C01_e2e_skip_verifies_nothing : forall (C PM : Type) (gatp : GATP) (ps :
 Proof. exact Verify_skip_verifies_nothing. Qed.
 Print Assumptions C01_e2e_skip_verifies_nothing.
 
+(* ---------- verifier.verifyIntegrity: the model's integrity facts, from its oracles ---------- *)
+
+(* [integrity_facts SE parse C everify mt sig decode] = the model's [envfacts] read off
+   signature.ParseEnvelope (e_parse), Envelope.Verify's error through the code's type switch
+   (e_verify) and the content type of the payload it returns (e_ctype). For every outcome whose
+   level is not nil the generated verifyIntegrity panics only when Envelope.Verify returns (nil, nil);
+   otherwise it returns ONE result of type "integrity", with the action the level assigns to
+   integrity, whose Error is nil EXACTLY WHEN the model's [verify_integrity] passes on these facts;
+   the envelope content is handed on only then. *)
+Theorem C01_e2e_verifyIntegrity_equiv :
+  forall (SE : Type) (parse : string -> list Z -> SE * option GoLib.err) (C : Type)
+         (everify : ptr (signature_EnvelopeContent C) * option GoLib.err)
+         sig mt (o : notation_go_VerificationOutcome C) lvl decode,
+  ptr_val (VerificationOutcome_VerificationLevel C o) = Some lvl ->
+  let env := integrity_facts SE parse C everify mt sig decode in
+  match gen_verifier_verifyIntegrity SE parse C everify sig mt o with
+  | None => snd (parse mt sig) = None /\ snd everify = None /\ ptr_val (fst everify) = None
+  | Some (envp, irp) =>
+      exists r, irp = PNew r /\ ValidationResult_Type r = "integrity"
+                /\ ValidationResult_Action r = map_get_or String.eqb "" "integrity" (VerificationLevel_Enforcement lvl)
+                /\ (ValidationResult_Error r = None <-> verify_integrity env = None)
+                /\ (ValidationResult_Error r = None -> envp = fst everify /\ ptr_val envp <> None)
+                /\ (ValidationResult_Error r <> None -> envp = PNil)
+  end.
+Proof. exact gen_verifyIntegrity_equiv. Qed.
+Print Assumptions C01_e2e_verifyIntegrity_equiv.
+
 (* ---------- non-vacuity: the generated Verify, run ---------- *)
 Definition x_desc : v1_Descriptor :=
   mk_Descriptor "application/vnd.oci.image.manifest.v1+json" "sha256:aa" 528 [] [] [] PNil "".
